@@ -158,6 +158,23 @@ theorem RunsCallF.intro {G : GCtx} {fn : String} {c : List (RInstr × Span)} (hf
   rw [execHN_add, execHN_one, exec1H_of_next (mkS_addMp G.code G.lim G.s fn 0 frames mp k stk mem out c hf _ sp1 h0 hroom)]
   simp only [Nat.zero_add, e]
 
+theorem RunsCallT.intro {G : GCtx} {fn : String} {c : List (RInstr × Span)} (hf : findCode G.code fn = some c)
+    {frames : List Frame} {mp : Int} {nv ipS : Nat} {sp1 : Span} {stk0 stk : List SVal}
+    {mem mem1 mem' : List (Int × Val)} {out out1 out' : World} {msg : String} {tsp : Span}
+    (h0 : c[0]? = some (.addMp (nv : Int), sp1)) (hroom : mp + (nv : Int) < (G.lim.memory : Int))
+    (hpre : Runs G.code G.lim G.s fn frames (mp + (nv : Int)) 1 stk0 mem out ipS stk mem1 out1)
+    (hT : RunsT G fn frames (mp + (nv : Int)) ipS stk mem1 out1 msg tsp mem' out') :
+    RunsCallT G fn frames mp stk0 stk mem out msg tsp mem' out' := by
+  intro k
+  obtain ⟨k1, e1⟩ := hpre (k + 1)
+  obtain ⟨k2, s1, frames', ip', mp', xs, e2, e3⟩ := hT (k + 1 + k1)
+  refine ⟨1 + (k1 + k2), s1, frames' ++ [⟨fn, ip'⟩], mp', xs, ?_, ?_⟩
+  · rw [execHN_add, execHN_one, exec1H_of_next (mkS_addMp G.code G.lim G.s fn 0 frames mp k stk0 mem out c hf _ sp1 h0 hroom)]
+    simp only [Nat.zero_add]
+    rw [execHN_add, e1]
+    exact e2
+  · rw [e3]; simp only [List.append_assoc, List.singleton_append, Nat.add_assoc]
+
 theorem pcall_zero (G : GCtx) : PCall G 0 := by
   intro g fd I stmts e _ _ _ sp vals st frames mp stk mem _ _
   rw [callBody]
@@ -219,11 +236,11 @@ theorem pcall_step (G : GCtx) (hG : G.OK) (n : Nat) (hPSs : ∀ m, m + 1 = n →
   have hhi : mp + (P.envE.nv : Int) < (G.lim.memory : Int) := by omega
   -- the activation
   obtain ⟨A, hAdef⟩ : ∃ A : Act, A = Act.mk (mangleFnName G.mod fd.name) fd.name P.cleanup frames
-    (mp + (P.envE.nv : Int)) I.c I.σ I.lab I.N I.T P.envE.nv I.φ := ⟨_, rfl⟩
+    (mp + (P.envE.nv : Int)) I.c I.σ I.lab I.N I.T P.envE.nv I.φ true := ⟨_, rfl⟩
   have hA : A.OK G := by
     rw [hAdef]
     exact ⟨hFn.code, hFn.inj, hslot, by show 0 ≤ mp + (P.envE.nv : Int) - (P.envE.nv : Int); omega, hhi, hFn.phi,
-      hFn.key, hG.println⟩
+      hFn.key, hG.println, rfl⟩
   -- the placement of the pieces
   obtain ⟨hpl1234, hpl5⟩ := hplaced.append
   obtain ⟨hpl123, hpl4⟩ := hpl1234.append
@@ -286,7 +303,8 @@ theorem pcall_step (G : GCtx) (hG : G.OK) (n : Nat) (hPSs : ∀ m, m + 1 = n →
     push_cast
     rw [Int.add_mul]
     omega
-  have hS := hPSs m rfl A hA [] (P.envB.scopes.drop 1) 1 stmts P.envB spec1 (1 + nI P.pcode) stk mem1 hFn.okS
+  have hS := hPSs m rfl A hA [] (P.envB.scopes.drop 1) 1 stmts P.envB spec1 (1 + nI P.pcode) stk mem1
+    (by rw [hAdef]; exact hFn.okS)
     (by rw [hAT]; exact hFn.tIdents) (by rw [hAsrc, hAφ]; exact hwsS)
     (by rw [hAsrc, hAφ, hAN, ← hsc]; exact fun m hm => hvars m (Or.inl (Or.inl (Or.inr hm))))
     (by rw [hAsrc, hAφ, hAlab, hAσ, hAc, ← hsc]; exact hpl3) (Nat.le_refl 1) rfl
@@ -321,18 +339,29 @@ theorem pcall_step (G : GCtx) (hG : G.OK) (n : Nat) (hPSs : ∀ m, m + 1 = n →
       rw [hst2, hst1, ← hspec1]
     | error c =>
       cases c <;> simp only [] <;> first | trivial | exact False.elim hE | skip
-      intro hk
-      have hE' := hE hk
-      rw [hAfn, hArest, hAmp] at hE'
-      exact RunsCallF.intro hFn.code hi0 hhi ((hrunP.trans hrunS).fatal hE')
+      · -- the trailing expression throws
+        obtain ⟨hst2, mem3, hTE, hmlE⟩ := hE
+        rw [hAfn, hArest, hAmp] at hTE
+        refine ⟨?_, mem3, RunsCallT.intro hFn.code hi0 hhi (hrunP.trans hrunS) hTE,
+          ((hmlP.mono hmono).trans (hmlS.mono hmono)).trans (hmlE.mono hmono')⟩
+        rw [hst2, hst1, ← hspec1]
+      · intro hk
+        have hE' := hE hk
+        rw [hAfn, hArest, hAmp] at hE'
+        exact RunsCallF.intro hFn.code hi0 hhi ((hrunP.trans hrunS).fatal hE')
   | error c =>
     have hout1 : spec1.world = st.world := by rw [← hspec1]; rfl
     cases c <;> simp only [] <;> first | trivial | exact False.elim hS | skip
     · -- return
-      obtain ⟨hst1, mem2, hrunS, hmlS⟩ := hS
+      obtain ⟨_, hst1, mem2, hrunS, hmlS⟩ := hS
       rw [hAfn, hArest, hAmp, hAlab, hAcl, hlabC, hout1] at hrunS
       refine ⟨?_, mem2, RunsCall.intro hFn.code hi0 hhi (hrunP.trans hrunS) hiC hiR,
         (hmlP.mono hmono).trans (hmlS.mono hmono)⟩
+      rw [hst1, ← hspec1]
+    · -- a statement throws
+      obtain ⟨hst1, mem2, hTS, hmlS, _⟩ := hS
+      rw [hAfn, hArest, hAmp, hout1] at hTS
+      refine ⟨?_, mem2, RunsCallT.intro hFn.code hi0 hhi hrunP hTS, (hmlP.mono hmono).trans (hmlS.mono hmono)⟩
       rw [hst1, ← hspec1]
     · intro hk
       have hS' := hS hk
